@@ -66,7 +66,7 @@ def run(ctx, rep):
         for b in f.body["blocks"]:
             t = b["t"]
             if t and t["k"] == "call" and t["f"].get("name") == "new_unmasked":
-                callers.add(f.root_fn().path)
+                callers |= {prog.fns[o].path for o in prog.owners(f)}   # a helper new to the tree counts for the functions using it
     rep.check(all("RawU24 as" in c and c.endswith("::load") for c in callers), "O0", "new_unmasked-callers", "new_unmasked (no masking) may only be used by RawU24::load, whose value is assembled from exactly three bytes; callers: %s" % sorted(callers))
 
     for cty, rty in sorted(colours):
